@@ -519,7 +519,7 @@ func proveUpper(c *Ctx, s idxSite, idx ssa.Value, slack int64) proofResult {
 			return proofResult{how: fmt.Sprintf("G2 index range %s within fixed length %d", rangeStr(lo, hi), n), ok: true}
 		}
 		// G5: enum-typed index, every declared constant of the type is below the table length
-		if nt, ok := stripWiden(idx).Type().(*types.Named); ok && slack == 0 {
+		if nt, ok := stripWiden(idx).Type().(*types.Named); ok && slack == 0 && !disableG5 {
 			if mx, cnt := enumMax(c, nt); cnt >= 2 && mx < n {
 				return proofResult{how: fmt.Sprintf("G5 enum index %s: all %d declared constants <= %d < table length %d", nt.Obj().Name(), cnt, mx, n), ok: true, assumed: "enum values are declared constants"}
 			}
@@ -652,6 +652,9 @@ func dominatedByOkOf(call *ssa.Call, at ssa.Instruction) bool {
 	}
 	return false
 }
+
+// disableG5: when set, enum-typed indices are not accepted on the strength of their declared constants.
+var disableG5 bool
 
 // offsetPostHolds: set by rule O1 (returned offset <= len(buf) for streaming functions).
 var offsetPost = map[string]bool{}
